@@ -349,7 +349,7 @@ func init() {
 				}
 				c05RunCase(w, s.f, rules, subset, rev)
 			}}
-			return []*sup.Space{query, run, c05CloneSpace()}
+			return []*sup.Space{c05CloneSpace(), query, run}
 		},
 	})
 }
